@@ -11,8 +11,10 @@ INT, BOOL, STR, VEC = "int", "bool", "str", "vec"
 
 
 class Gen:
-    def __init__(self, rnd, max_depth=4, error_rate=0.05, features=None):
+    def __init__(self, rnd, max_depth=4, error_rate=0.05, features=None, full_parens=False):
         self.r = rnd
+        self.full_parens = full_parens
+        self.uses_trace = False
         self.max_depth = max_depth
         self.error_rate = error_rate
         self.f = features or {}
@@ -60,6 +62,73 @@ class Gen:
             return "(%s %s %s)" % (self.const_expr(BOOL, d + 1), r.choice(["&&", "||"]), self.const_expr(BOOL, d + 1))
         return "(!%s)" % self.const_expr(BOOL, d + 1)
 
+    # ---- expressions written with the fewest parentheses C precedence and associativity allow (feature "flat");
+    #      with full_parens the same tree is written fully parenthesised: the two texts must mean the same
+    PREC = {"*": 10, "/": 10, "%": 10, "+": 9, "-": 9, "<<": 8, ">>": 8, "<": 7, "<=": 7, ">": 7, ">=": 7, "==": 6, "!=": 6,
+            "&": 5, "^": 4, "|": 3, "&&": 2, "||": 1}
+
+    def tree(self, env, t, d):
+        r = self.r
+        if d >= 3 or r.random() < 0.2 + 0.15 * d:
+            k = r.random()
+            vs = self.vars_of(env, t)
+            if k < 0.35:
+                self.tagn = getattr(self, "tagn", 0) + 1
+                self.uses_trace = True
+                self.note("flat:side-effect-operand")
+                if t == INT:
+                    return ("atom", 'N("t%d", %s)' % (self.tagn, r.choice(vs) if vs and r.random() < 0.5 else self.lit(INT)))
+                return ("atom", '%s("t%d")' % (r.choice("TF"), self.tagn))
+            if vs and k < 0.65:
+                return ("atom", r.choice(vs))
+            return ("atom", self.lit(t))
+        if t == INT:
+            k = r.random()
+            if k < 0.7:
+                op = r.choice(["*", "/", "%", "+", "-", "+", "-", "<<", ">>", "&", "^", "|"])
+                self.note("flat:" + op)
+                rhs = ("atom", str(r.randint(0, 3))) if op in ("<<", ">>") else (("atom", str(r.choice([1, 2, 3, 7]))) if op in ("/", "%") and r.random() > self.error_rate else self.tree(env, INT, d + 1))
+                return ("bin", op, self.tree(env, INT, d + 1), rhs)
+            if k < 0.85:
+                return ("un", r.choice(["-", "+", "~"]), self.tree(env, INT, d + 1))
+            return ("tern", self.tree(env, BOOL, d + 1), self.tree(env, INT, d + 1), self.tree(env, INT, d + 1))
+        k = r.random()
+        if k < 0.35:
+            op = r.choice(["<", "<=", ">", ">=", "==", "!="])
+            self.note("flat:" + op)
+            return ("bin", op, self.tree(env, INT, d + 1), self.tree(env, INT, d + 1))
+        if k < 0.8:
+            op = r.choice(["&&", "||"])
+            self.note("flat:" + op)
+            return ("bin", op, self.tree(env, BOOL, d + 1), self.tree(env, BOOL, d + 1))
+        if k < 0.9:
+            return ("bin", r.choice(["==", "!="]), self.tree(env, BOOL, d + 1), self.tree(env, BOOL, d + 1))
+        return ("un", "!", self.tree(env, BOOL, d + 1))
+
+    def prec(self, n):
+        return {"atom": 12, "un": 11, "tern": 0}.get(n[0]) if n[0] != "bin" else self.PREC[n[1]]
+
+    def render(self, n, top=True):
+        full = self.full_parens
+        if n[0] == "atom":
+            return n[1]
+        if n[0] == "un":
+            e = self.render(n[2], False)
+            return n[1] + ("(%s)" % e if full or n[2][0] != "atom" else e)
+        if n[0] == "tern":
+            parts = [self.render(x, False) for x in n[1:]]
+            parts = ["(%s)" % x if full and c[0] != "atom" or c[0] == "tern" else x for x, c in zip(parts, n[1:])]
+            s = "%s ? %s : %s" % tuple(parts)
+            return "(%s)" % s      # a conditional is always written in parentheses: its own associativity is not part of this family
+        p = self.PREC[n[1]]
+        a, b = self.render(n[2], False), self.render(n[3], False)
+        if (full and n[2][0] != "atom") or self.prec(n[2]) < p:
+            a = "(%s)" % a
+        if (full and n[3][0] != "atom") or self.prec(n[3]) <= p:
+            b = "(%s)" % b
+        s = "%s %s %s" % (a, n[1], b)
+        return "(%s)" % s if top else s
+
     def arg(self, env, depth):
         """a call argument: parameters alias the caller's variable, so a loop counter is passed by value"""
         e = self.expr(env, INT, depth + 1)
@@ -77,6 +146,9 @@ class Gen:
             if vs and r.random() < 0.6:
                 return r.choice(vs)
             return self.lit(t)
+        if self.f.get("flat") and t in (INT, BOOL) and r.random() < self.f["flat"]:
+            self.note("flat-expression")
+            return self.render(self.tree(env, t, 0))
         if self.f.get("opt") and t in (INT, BOOL) and r.random() < self.f["opt"]:
             self.note("constant-expression")
             return self.const_expr(t, 0)
@@ -361,6 +433,11 @@ class Gen:
         if n and r.random() < 0.3:
             guard = " : %s %s %s" % (params[0], r.choice(["<", ">", "=="]), self.lit(INT))
             self.note("guard")
+            if self.f.get("flat") and r.random() < 0.6:
+                self.tagn = getattr(self, "tagn", 0) + 1
+                self.uses_trace = True
+                guard = ' : G("g%d",%s)' % (self.tagn, guard[2:])
+                self.note("guard-with-side-effect")
         body = self.block(env, 1, False, True)
         body = body[:-2] + "; " + self.expr(env, INT, 2) + " }"
         s = "def %s(%s)%s %s" % (name, ", ".join(params), guard, body)
@@ -382,6 +459,8 @@ class Gen:
         t = r.choice([INT, INT, BOOL, STR, VEC])
         parts.append(self.expr(env, t, 1))
         sep = r.choice(["; ", "\n", ";\n"])
+        if self.uses_trace:
+            parts.insert(0, 'def N(s, v) { print(s); v }; def T(s) { print(s); true }; def F(s) { print(s); false }; def G(s, b) { print(s); b }')
         return sep.join(parts)
 
 
